@@ -10,7 +10,7 @@
 #include "vf_rec.h"
 #include "vf_ref.h"
 
-enum { K_FIN = VC_USER, K_NED, K_ERR, K_REPEAT, K_FOLLOW, K_STRINGS, K_BIGLEN };
+enum { K_FIN = VC_USER, K_NED, K_ERR, K_REPEAT, K_FOLLOW, K_STRINGS, K_BIGLEN, K_INTERFERE };
 #define SUB 16
 
 static vf_sb sb;
@@ -103,7 +103,9 @@ static void run_case(const uint8_t* hb, size_t hl, size_t n, int follow, bool di
     if (a.rec.ncalls) vf_fail(NULL, "ERROR but %u callbacks fired", a.rec.ncalls);
     if (a.r.read) vf_fail(NULL, "ERROR with read = %zu", a.r.read);
   }
-  /* no hidden state: other calls in between, then the same call again */
+  /* no hidden state: other calls in between - at other addresses AND at this very address with the same initial byte but other
+   * argument bytes (a decoder that remembers "what I said last time about this buffer" is caught only by the latter) - then the
+   * same call again */
   {
     static const uint8_t o1[] = {0x19}, o2[] = {0x1c, 0, 0}, o3[] = {0x5f}, o4[] = {0x7b, 0xff, 0xff, 0xff, 0xff, 0xff, 0xff, 0xff, 0xff};
     struct sdres t, a2;
@@ -111,6 +113,28 @@ static void run_case(const uint8_t* hb, size_t hl, size_t n, int follow, bool di
     call(o2, sizeof o2, &t);
     call(o3, sizeof o3, &t);
     call(o4, 4, &t);
+    if (hl > 1 && n > 1) {
+      /* interfering heads Y at the same address: argument bytes all zero, all ones, and the original with the last byte changed */
+      for (int variant = 0; variant < 3; variant++) {
+        uint8_t save[9];
+        size_t have = (hl < n ? hl : n);
+        memcpy(save, p, have);
+        for (size_t i = 1; i < have; i++) p[i] = variant == 0 ? 0x00 : variant == 1 ? 0xff : save[i];
+        if (variant == 2) p[have - 1] ^= 0x5b;
+        struct sdres y;
+        call(p, n, &y);
+        rhead hy;
+        int ry = ref_head(p, n, 0, &hy);
+        vf_cnt(K_INTERFERE, 1);
+        bool oky = ry == RH_OK ? (y.r.status == CBOR_DECODER_FINISHED && y.rec.ncalls == 1 && y.r.read == (size_t)hy.full)
+                 : ry == RH_NEED ? (y.r.status == CBOR_DECODER_NEDATA && y.rec.ncalls == 0 && y.r.read == 0 && y.r.required > n && (unsigned __int128)y.r.required <= hy.need)
+                                 : (y.r.status == CBOR_DECODER_ERROR && y.rec.ncalls == 0);
+        if (!oky)
+          vf_fail(NULL, "a second head with the same initial byte but other argument bytes, decoded at the same address right after this one, is answered with status %d read %zu required %zu "
+                        "(the decoder keeps state between calls)", y.r.status, y.r.read, y.r.required);
+        memcpy(p, save, have);
+      }
+    }
     call(p, n, &a2);
     vf_cnt(K_REPEAT, 1);
     if (!same(&a, p, &a2, p)) vf_fail(NULL, "same call repeated after other calls gives a different result (hidden state)");
@@ -228,5 +252,5 @@ struct vf_check vf_the_check = {
                     "value of `required` on FINISHED/ERROR is documented in data.h but not part of C08: recorded, not judged"},
     .counters = {[VC_EVAL] = "decoder_calls_judged", [VC_DISTINCT] = "distinct_triples", [VC_TRANS] = "tokeniser_verdicts", [VC_TRACES] = "executed_on_implementation",
                  [K_FIN] = "expected_FINISHED", [K_NED] = "expected_NEDATA", [K_ERR] = "expected_ERROR", [K_REPEAT] = "repeat_after_other_calls",
-                 [K_FOLLOW] = "cut_to_read_reruns", [K_STRINGS] = "definite_string_heads_with_payload", [K_BIGLEN] = "NEDATA_with_need_above_2^64"},
+                 [K_FOLLOW] = "cut_to_read_reruns", [K_STRINGS] = "definite_string_heads_with_payload", [K_BIGLEN] = "NEDATA_with_need_above_2^64", [K_INTERFERE] = "interfering_calls_at_the_same_address"},
     .init = init, .units = units, .unit = unit, .replay = replay, .state_bits = 16};
